@@ -1,10 +1,18 @@
+pub mod query;
 pub mod rt;
+pub mod rtree;
 pub mod zoom;
 
 use crate::proto::Tier;
 use std::path::Path;
 
 /// Subcommands that do not follow the per-case protocol.
-pub fn special(_cmd: &str, _seed: u64, _tier: Tier, _scratch: &Path, _arg: &str) -> Option<i32> {
-    None
+pub fn special(cmd: &str, _seed: u64, tier: Tier, _scratch: &Path, _arg: &str) -> Option<i32> {
+    match cmd {
+        "c05-count" => {
+            println!("{}", rtree::shapes(tier).len());
+            Some(0)
+        }
+        _ => None,
+    }
 }
